@@ -79,7 +79,7 @@ def stateJ (w : World) : Json :=
        ("cfgs", Json.arr (w.cfgs.map (fun c =>
           Json.arr #[Json.str c.name, toJson c.numDevices, strsJ c.deviceNames])).toArray),
        ("nodes", Json.arr (w.nodes.map nodeJ).toArray),
-       ("graphs", Json.arr (w.graphs.map (fun g => obj [("i", natsJ g.inputs), ("n", natsJ g.nodes)])).toArray),
+       ("graphs", Json.arr (w.graphs.map (fun g => obj [("i", natsJ g.inputs), ("n", natsJ g.nodes), ("t", natsJ g.inits)])).toArray),
        ("models", Json.arr ((List.range w.models.length).map
           (fun m => modelJ w m (w.model m))).toArray)]
 
@@ -117,6 +117,46 @@ def parseOptNat (j : Json) : Except String (Option Nat) :=
   | Json.null => pure none
   | v => do let i ← fromJson? (α := Nat) v; pure (some i)
 
+def parseSDim (j : Json) : Except String SDim := do
+  match j with
+  | Json.arr a =>
+    if a.size = 3 then
+      let axis ← fromJson? (α := Int) a[0]!
+      let dim ← parseDim a[1]!
+      let k ← fromJson? (α := Int) a[2]!
+      pure ⟨axis, dim, k⟩
+    else throw "sdim"
+  | _ => throw "sdim"
+
+def parseSpec (j : Json) : Except String Spec := do
+  match j with
+  | Json.arr a =>
+    if a.size = 3 then
+      let v ← fromJson? (α := Nat) a[0]!
+      let devs ← fromJson? (α := Array Int) a[1]!
+      let dims ← match a[2]! with
+        | Json.arr d => d.toList.mapM parseSDim
+        | _ => throw "dims"
+      pure ⟨v, devs.toList, dims⟩
+    else throw "spec"
+  | _ => throw "spec"
+
+/-- `[cfg, [spec...], stage|null]` — the format `nodeCfgJ` prints -/
+def parseNodeCfg (j : Json) : Except String NodeCfg := do
+  match j with
+  | Json.arr a =>
+    if a.size = 3 then
+      let c ← fromJson? (α := Nat) a[0]!
+      let specs ← match a[1]! with
+        | Json.arr d => d.toList.mapM parseSpec
+        | _ => throw "specs"
+      let stage ← match a[2]! with
+        | Json.null => pure none
+        | v => do let i ← fromJson? (α := Int) v; pure (some i)
+      pure ⟨c, specs, stage⟩
+    else throw "nodecfg"
+  | _ => throw "nodecfg"
+
 /-- parse one operation of the alphabet -/
 def parseOp (j : Json) : Except String Op := do
   let op ← getStr j "op"
@@ -132,6 +172,11 @@ def parseOp (j : Json) : Except String Op := do
       pure (name, sh))
     pure (.newNode (← getNat j "g") ins outs)
   | "removeNode" => pure (.removeNode (← getNat j "g") (← getNat j "n") (← getBool j "safe"))
+  | "attachNode" => pure (.attachNode (← getNat j "g") (← getNat j "n"))
+  | "newInit" => pure (.newInit (← getNat j "g") (← getStr j "name") (← getShape j "shape"))
+  | "setShape" => pure (.setShape (← getNat j "v") (← getShape j "shape"))
+  | "setDev" => pure (.setDev (← getNat j "n") (← (← getArr j "dev").mapM parseNodeCfg))
+  | "setModelCfgs" => pure (.setModelCfgs (← getNat j "m") (← getNats j "cfgs"))
   | "rename" => pure (.rename (← getNat j "v") (← getStr j "name"))
   | "addCfg" =>
     pure (.addCfg (← getNat j "m") (← getStr j "name") (← getOptInt j "num") (← getStrs j "names"))
